@@ -347,4 +347,13 @@ def _z3v():
 
 
 if __name__ == "__main__":
-    main()
+    try:
+        main()
+    except SystemExit:
+        raise
+    except BaseException:
+        # a crash of the machinery itself is neither a pass nor a violation: reserved exit code 3
+        import traceback
+        traceback.print_exc()
+        print("HARNESS-ERROR: the check machinery crashed (no verdict)")
+        sys.exit(3)
